@@ -132,7 +132,10 @@ func (c *Int) Ident() string {
 			// -1 is true in two's complement notation (e.g. `i1 -1`, `i1 s0x1`).
 			return "true"
 		default:
-			panic(fmt.Errorf("invalid integer value of boolean type; expected 0 or 1, got %d", x))
+			// Any other value is out of range for i1 (e.g. `i1 2`, which LLVM
+			// accepts and reads as its low bit); as for wider types, an
+			// out-of-range value is printed as written.
+			return c.X.String()
 		}
 	}
 	// Output x in hexadecimal notation if x is positive, greater than or equal
